@@ -804,6 +804,9 @@ def run(ck: Checker) -> None:
     ck.guard("R-XP-ELEMENTS", lambda: r_xp_elements(ck))
     ck.guard("R-XP-ONCE", lambda: r_xp_once(ck))
     ck.guard("R-XP-ELEMENTS", lambda: r_empty_step(ck))
+    from . import state_rules as S
+    ck.guard("R-XP-SHARED", lambda: S.r_stateless(ck, "R-XP-SHARED", XP, "ASTXpath", ("match", "findall"), "a compiled xpath is interned per text and used for any tree"))
+    ck.guard("R-XP-SHARED", lambda: S.r_stateless(ck, "R-XP-SHARED", XP, "XPathTransformer", None, "one transformer instance serves every parse, also after a failed one"))
     from .c17 import r_reusable
     ck.guard("R-XP-ELEMENTS", lambda: r_reusable(ck))
     ck.require_count("R-XP-SHARED", 3)
